@@ -45,6 +45,7 @@ MDNS = "224.0.0.251"
 D30_SIG = "C17:close-from-tracked-browser-callback-thread-raises"
 D31_SIG = "C17:untracked-thread-browser-delivers-queue-after-close"
 D34_SIG = "C17:overlapping-sync-closes-raise"
+R3A_SIG = "C17:closed-during-startup-opens-sockets-afterwards"
 
 
 class RTTransport(asyncio.DatagramTransport):
@@ -96,8 +97,9 @@ class Rig:
     """patches that give every Zeroconf instance created inside `with Rig() as rig:` fake sockets and short timers, and
     log the four calls `Zeroconf.close()` makes"""
 
-    def __init__(self, fast=15, cleanup_interval=None, ptr_min_ttl=None, safeguard=None, flush=True, register_time=None):
+    def __init__(self, fast=15, cleanup_interval=None, ptr_min_ttl=None, safeguard=None, flush=True, register_time=None, startup_delay=0):
         self.log = []
+        self.startup_delay = startup_delay   # seconds the creation of the endpoints takes (many interfaces, a busy loop)
         self.register_time = register_time if register_time is not None else fast   # interval of the three announcements
         self.flush = flush   # (off for the scenarios with concurrent closers: the extra round trip through the loop would move the race)
         self.calls = []     # one entry per (instance, call of close's four steps)
@@ -123,6 +125,8 @@ class Rig:
 
         async def create_endpoints(self_):
             loop = self_.loop
+            if rig.startup_delay:
+                await asyncio.sleep(rig.startup_delay)
             readers, senders = [], []
             if self_._listen_socket:
                 readers.append(self_._listen_socket)
@@ -148,7 +152,7 @@ class Rig:
                 for i, b in enumerate(list(zc.browsers.values())):
                     if b is who:
                         caller = i
-                ent = {"call": name, "thread": who.name, "caller": caller, "before": snapshot(zc), "n_log": len(rig.log), "raised": None}
+                ent = {"call": name, "thread": who.name, "caller": caller, "before": snapshot(zc), "n_log": len(rig.log), "raised": None, "t0": time.monotonic()}
                 rig.calls.append(ent)
                 try:
                     return orig(self_, *a, **k)
@@ -164,6 +168,7 @@ class Rig:
                         except BaseException:  # noqa: BLE001
                             pass
                     ent["after"] = snapshot(zc)
+                    ent["t1"] = time.monotonic()
                     ent["goodbyes"] = sum(1 for e in rig.log[ent["n_log"]:] if e[1] == "sent" and rec_keys(e[2], True))
             return f
 
@@ -456,9 +461,16 @@ def loop_backed_scenario(case):
             except BaseException as ex:  # noqa: BLE001
                 err.append(type(ex).__name__)
 
-        await loop.run_in_executor(None, do_close)
+        def do_close_inside_another_loop():
+            async def app():
+                do_close()
+            asyncio.run(app())
+
+        # the closing thread may itself be running an event loop (another one): `AsyncEngine.close()` must still run `_async_close()`
+        # on the *instance's* loop and wait for it
+        await loop.run_in_executor(None, do_close_inside_another_loop if case.get("closer_has_loop") else do_close)
         t_ret = time.monotonic()
-        what = "close() from an executor thread (instance on the application's loop)"
+        what = "close() from an executor thread%s (instance on the application's loop)" % (" that runs a loop of its own" if case.get("closer_has_loop") else "")
         if err:
             bad.append(("C17:close-call-raises:" + err[0], "%s raised %s" % (what, err[0])))
         judge_after_close(bad, what, zc, rig, n0, t_ret, events, expected, loop_goes_on=True, loop_errors=errors)
@@ -748,6 +760,72 @@ def untracked_thread_browser_async_scenario(case):
     return bad, []
 
 
+def close_during_startup_scenario(case):
+    """**R3-C17-a's input class**: a loop-backed instance is closed -- sync `close()` from an executor thread, which does not wait for
+    start-up, or `async_close()` when start-up takes longer than its 1 s wait (not generated: too slow) -- while its endpoints are still
+    being created (`startup_ms`); an untracked `AsyncServiceBrowser` is listening; after start-up has had time to complete a response is
+    handed to whatever socket is open"""
+    from zeroconf import Zeroconf
+    from zeroconf.asyncio import AsyncServiceBrowser
+
+    bad = []
+    events = []
+    errors = []
+
+    async def main(rig):
+        loop = asyncio.get_running_loop()
+        loop.set_exception_handler(lambda l, ctx: errors.append(str(ctx.get("exception") or ctx.get("message"))[:200]))
+        zc = Zeroconf(interfaces=["10.0.0.1"])
+        browser = AsyncServiceBrowser(zc, [TB], listener=Recorder(events, "untracked-async"))
+        if case["close_after_ms"]:
+            await asyncio.sleep(case["close_after_ms"] / 1000.0)
+        started_before = bool(zc.engine.running_event.is_set())
+        err = []
+
+        def do_close():
+            try:
+                zc.close()
+            except BaseException as ex:  # noqa: BLE001
+                err.append(type(ex).__name__)
+
+        await loop.run_in_executor(None, do_close)
+        t_ret = time.monotonic()
+        what = "close() from an executor thread %d ms after the instance was created (its endpoints take %d ms)" % (case["close_after_ms"], case["startup_ms"])
+        if err:
+            bad.append(("C17:close-call-raises:" + err[0], "%s raised %s" % (what, err[0])))
+        await asyncio.sleep(case["startup_ms"] / 1000.0 + 0.15)
+        eng = zc.engine
+        open_now = [t for t in eng.readers if not t.transport.is_closing()]
+        for proto in eng.protocols[:1]:
+            if proto.transport is not None and not proto.transport.transport.is_closing():
+                proto.datagram_received(ptr_response(TB, ["x0"]), ("10.0.0.9", 5353))
+        await asyncio.sleep(0.1)
+        late = [e for e in events if e[0] > t_ret]
+        sub = []
+        if open_now or eng.running_event.is_set():
+            sub.append(("C17:not-shut-down", "%s: %d ms after it returned %d sockets of the instance are open and running_event is %s"
+                        % (what, case["startup_ms"] + 150, len(open_now), "set" if eng.running_event.is_set() else "clear")))
+        if late:
+            sub.append(("C17:callback-after-close", "%s: listener callback %s %s %.0f ms after it returned" % (what, late[0][1], late[0][2], (late[0][0] - t_ret) * 1000)))
+        if errors:
+            sub.append(("C17:loop-exception", "%s: loop exception handler called: %s" % (what, errors[0])))
+        # the recorded finding: the close returned before start-up had completed, and what is wrong afterwards is that start-up
+        # completed behind it (sockets opened / running_event set / a datagram received on them).  Anything else is fresh.
+        if not started_before and sub and not errors:
+            bad.append((R3A_SIG, "; ".join(x[1] for x in sub)[:500]))
+        else:
+            bad.extend(sub)
+        for t in eng.readers:
+            t.transport.close()
+        browser.query_scheduler.stop()
+
+    import logging
+    logging.getLogger("asyncio").setLevel(logging.CRITICAL)   # the browser's start task ends with NotRunningException, never retrieved
+    with Rig(startup_delay=case["startup_ms"] / 1000.0) as rig:
+        asyncio.run(main(rig))
+    return bad, []
+
+
 def concurrent_close_scenario(case):
     """**D34's input class** when `thread_backed`: `n_threads` threads call `close()` at (nearly) the same time on an instance
     with a registered service.  (Loop-backed: the same from executor threads; no loop thread to stop.)  Safeguard timeouts
@@ -756,10 +834,12 @@ def concurrent_close_scenario(case):
 
     bad = []
     results = []
+    conc = []
     what = "%d overlapping close() calls from %d threads (%s instance)" % (case["n_threads"], case["n_threads"],
                                                                           "thread-backed" if case["thread_backed"] else "loop-backed")
 
     def closer(zc, k):
+        threading.current_thread().name = "closer-%d" % k
         time.sleep(case["stagger_ms"] * k / 1000.0)
         t0 = time.monotonic()
         try:
@@ -779,11 +859,14 @@ def concurrent_close_scenario(case):
         if oks:
             t_ret = min(r[3] for r in oks)
             judge_after_close(sub, what, zc, rig, n0, t_ret, [], expected, loop_goes_on=not case["thread_backed"])
+        d34 = d34_closers(rig.calls) if case["thread_backed"] else {}
         for s in sub:
-            # the recorded finding: one of the overlapping calls raises out of engine.close() / _shutdown_threads() because another
-            # one stopped the loop under it.  Only on an instance that owns its loop thread, only these exceptions.
-            if case["thread_backed"] and s[0] in ("C17:close-call-raises:EventLoopBlocked", "C17:close-call-raises:TimeoutError",
-                                                  "C17:close-call-raises:AttributeError"):
+            # the recorded finding, by what happened and not by who was there: a closer is in D34's class iff the exception came out of
+            # the very call the finding names (EventLoopBlocked out of unregister_all_services() / engine.close(): blocked on a coroutine
+            # handed to the loop; TimeoutError / AttributeError out of _shutdown_threads()) AND another closer's _shutdown_threads() -- on
+            # an instance that owns its loop thread -- stopped the loop while this closer's close() was in progress
+            who = [k for k, v in d34.items() if ("call #%d raised %s " % (k, v)) in s[1]]
+            if s[0].startswith("C17:close-call-raises:") and who:
                 bad.append((D34_SIG, s[1]))
             else:
                 bad.append(s)
@@ -803,6 +886,9 @@ def concurrent_close_scenario(case):
                 for t in ts:
                     t.join(20)
                 judge(zc, rig, n0, expected)
+                line = conc_line(rig.calls, snapshot(zc))
+                if line is not None:
+                    conc.append({"conc_line": line})
             finally:
                 force_close(zc)
     else:
@@ -823,7 +909,81 @@ def concurrent_close_scenario(case):
 
         with Rig(safeguard=2.0, flush=False) as rig:
             asyncio.run(main(rig))
-    return bad, []
+    return bad, conc
+
+
+D34_PAIRS = {("unregister", "EventLoopBlocked"), ("engine", "EventLoopBlocked"), ("threads", "TimeoutError"), ("threads", "AttributeError")}
+
+
+def d34_closers(calls):
+    """closer index -> exception, for the closers (threads named `closer-<k>`) whose close() raised in the way finding D34 describes"""
+    out = {}
+    stops = [c for c in calls if c["call"] == "threads" and c["raised"] is None and c["before"]["loop_thread"] and "t1" in c]
+    for c in calls:
+        if c["raised"] is None or not c["thread"].startswith("closer-") or (c["call"], c["raised"]) not in D34_PAIRS:
+            continue
+        began = min(x["t0"] for x in calls if x["thread"] == c["thread"])
+        if any(s_["thread"] != c["thread"] and began < s_["t1"] <= c.get("t1", 1e18) for s_ in stops):
+            out[int(c["thread"].split("-")[1])] = c["raised"]
+    return out
+
+
+def conc_line(calls, final):
+    """one `c17conc` line for a scenario with concurrent closers: every call of every closer becomes the model blocks it amounts to,
+    placed where it started (what the caller's thread does: `closeCall`, the submission of `engine.close()`, the `_loop_thread` test) or
+    ended (what it waited for on the loop; `closeBlocked` when it gave up) -- loop-side work of a call that succeeded is placed before
+    the other closer's loop stop (it cannot have happened after it)"""
+    cs = [c for c in calls if c["thread"].startswith("closer-") and "t1" in c]
+    if not cs or any(c["raised"] == "AttributeError" for c in cs):
+        return None
+    order = []
+    for c in sorted(cs, key=lambda c_: c_["t0"]):
+        if c["thread"] not in order:
+            order.append(c["thread"])
+    idx = {t: k for k, t in enumerate(order)}
+    stop_t = min([c["t1"] for c in cs if c["call"] == "threads" and c["raised"] is None and c["before"]["loop_thread"]], default=None)
+    evs = []
+    called = set()
+    init = sorted(cs, key=lambda c_: c_["t0"])[0]["before"]
+    for c in sorted(cs, key=lambda c_: c_["t0"]):
+        k = idx[c["thread"]]
+        loop_end = c["t1"] if (stop_t is None or c["raised"] is not None or c["t1"] < stop_t or (c["call"] == "threads")) else stop_t - 1e-6
+        if c["thread"] not in called:
+            called.add(c["thread"])
+            evs.append((c["t0"], 0, "call %d 1" % k))
+        if c["call"] == "unregister":
+            if c["raised"] == "EventLoopBlocked":
+                evs.append((c["t1"], 2, "bl %d 0" % k))
+            elif c["raised"] is None and k == 0 and init["registry"] and init["loop_running"]:
+                # (two closers may both have seen the registry full before either coroutine ran; one coroutine sent the goodbyes:
+                # in the model it is the first caller's)
+                evs += [(loop_end, 1, "gb %d 0" % k)] * 2
+        elif c["call"] == "markdone":
+            evs.append((c["t1"], 1, "md %d 0" % k))
+        elif c["call"] == "engine":
+            evs.append((c["t0"], 1, "sd %d 0" % k))
+            if c["raised"] == "EventLoopBlocked":
+                evs.append((c["t1"], 2, "bl %d 0" % k))
+            elif c["raised"] is None and c["before"]["loop_running"]:
+                evs += [(loop_end, 1, "sd %d 0" % k), (loop_end, 1, "fin %d 0" % k)]
+        elif c["call"] == "threads":
+            stopper = c["raised"] is None and c["before"]["loop_thread"] and c["t1"] == stop_t
+            if stopper or c["raised"] is not None or not c["before"]["loop_thread"]:
+                evs.append((c["t0"], 1, "tc %d 0" % k))
+                if c["before"]["loop_thread"]:
+                    evs.append((c["t1"], 1, "ts %d 0" % k))
+            else:
+                # it returned without stopping anything: its `if not self._loop_thread` came after the other closer had forgotten the thread
+                evs.append((c["t1"], 1, "tc %d 0" % k))
+    evs.sort(key=lambda e: (e[0], e[1]))
+    raised = [RAISED_ALL.get(c["raised"]) for c in cs if c["raised"] is not None]
+    if any(r is None for r in raised):
+        return None
+    return "c17conc %s %d %s %d %s %s %s %s" % (snap_tok(init), len(evs), " ".join(e[2] for e in evs), len(raised), " ".join(raised),
+                                              C.b01(final["done"]), C.b01(final["loop_thread"]), C.b01(final["loop_running"]))
+
+
+RAISED_ALL = {"RuntimeError": "re", "TimeoutError": "to", "EventLoopBlocked": "lb"}
 
 
 # ------------------------------------------------------------------------------------------
@@ -842,6 +1002,10 @@ def sync_lines(calls):
     """one `c17sync` line per observed call"""
     lines, info = [], []
     for c in calls:
+        if "conc_line" in c:
+            lines.append(c["conc_line"])
+            info.append({"call": "concurrent-closers", "raised": None, "caller": None, "before": None, "after": None, "goodbyes": None, "line": c["conc_line"]})
+            continue
         if "after" not in c or c["raised"] not in RAISED:
             continue
         lines.append("c17sync %s %s %s %s %d %s" % (c["call"], "-" if c["caller"] is None else str(c["caller"]), snap_tok(c["before"]),
@@ -861,12 +1025,15 @@ def gen_cases(seed):
                   "again": 2, "again_from_thread": True})
     for tb in (False, True):
         cases.append({"threads": "loop-backed-close", "n_services": rng.choice([1, 2]), "distinct_addrs": rng.random() < 0.5, "tracked_browser": tb,
-                      "close_after_ms": rng.choice([650, 750, 850]), "watch_ms": 700, "again": rng.choice([1, 2])})
+                      "close_after_ms": rng.choice([650, 750, 850]), "watch_ms": 700, "again": rng.choice([1, 2]), "closer_has_loop": tb})
     cases.append({"threads": "threaded-browser", "n_records": rng.choice([2, 3]), "callback_ms": 30, "closer": "async_close"})
     cases.append({"threads": "threaded-browser", "n_records": 2, "callback_ms": 30, "closer": "close-from-thread"})
     cases.append({"threads": "close-from-callback", "n_services": rng.choice([0, 1])})
     cases.append({"threads": "untracked-thread-browser", "n_services": rng.choice([0, 1]), "n_records": rng.choice([3, 4])})
     cases.append({"threads": "untracked-thread-browser-async", "n_records": rng.choice([3, 4])})
+    # closed while (or just after) the endpoints are being created
+    cases.append({"threads": "close-during-startup", "startup_ms": rng.choice([40, 60]), "close_after_ms": rng.choice([0, 5, 20])})
+    cases.append({"threads": "close-during-startup", "startup_ms": 20, "close_after_ms": 120})
     # announcements in flight (0 / 60 / 120 ms) when close() is called; with and without the legacy ttl= argument
     cases.append({"threads": "legacy-ttl", "ttl": rng.choice([60, 120, 4500]), "n_services": rng.choice([1, 2]), "n_records": 2, "callback_ms": 300,
                   "close_after_ms": rng.choice([0, 5, 20])})
@@ -932,6 +1099,8 @@ def run_one(case, with_calls=False):
         bad, calls = untracked_thread_browser_async_scenario(case)
     elif kind == "legacy-ttl":
         bad, calls = legacy_ttl_scenario(case)
+    elif kind == "close-during-startup":
+        bad, calls = close_during_startup_scenario(case)
     else:
         bad, calls = concurrent_close_scenario(case)
     return (bad, calls) if with_calls else bad
